@@ -43,6 +43,12 @@
  *          S-d clean streams in which a packet directly repeats the previous
  *             packet of its (class,type) announce it at least once, and after
  *             three cycles the information is complete.
+ *          S-e (phases announce, announce-history) a content sent three times
+ *             in a row for its (class,type) - also one that replaced an
+ *             announced content by a proper prefix, an extension or other bytes
+ *             of the same length - was carried by the payload of at least one
+ *             event of its class after its first appearance (call letters: by
+ *             a VBI_EVENT_NETWORK once two name packets followed).
  *  both    A2 no reassembly slot counts bytes it cannot hold (count is 0 or
  *             2..34 in both implementations; anything else means a byte was or
  *             will be stored outside the 32-byte buffer: "never corrupt memory"),
@@ -326,7 +332,7 @@ static void model_step(model_t *m, const pair_t *p, mstep_t *o)
 typedef struct {
         const stream_t *s;
         const char *fault;          /* NULL for a clean stream, else "parity error in data pair" ... */
-        const char *phase_note;
+        const char *phase_note;     /* input class given by the caller instead of the packet flags */
         int impl, step;
         int silent;                 /* first pass on a reused decoder: do not report, the caller re-runs */
 } runctx_t;
@@ -355,7 +361,7 @@ static void anomaly(const runctx_t *rc, const char *kind, unsigned flags, const 
                 snprintf(key, sizeof key, "%s: a byte pair fed at 31 stored payload bytes (count 33) passes the length guard and is stored past the 32-byte buffer",
                          impl_name(rc->impl));
         else
-                snprintf(key, sizeof key, "%s: %s [%s]", impl_name(rc->impl), kind, ctx_of(flags, rc->fault));
+                snprintf(key, sizeof key, "%s: %s [%s]", impl_name(rc->impl), kind, rc->phase_note ? rc->phase_note : ctx_of(flags, rc->fault));
         stream_str(rc->s, st, sizeof st);
         const pair_t *p = &rc->s->p[rc->step < rc->s->n ? rc->step : rc->s->n - 1];
         n_anomalies++;
@@ -504,16 +510,15 @@ static void put_str(gval_t *v, int off, const void *s, int max)
 }
 static void put_int(gval_t *v, int off, int x) { memcpy(v->b + off, &x, 4); }
 
-/* value of one group as the decoder shows it */
-static void lib_group(const vbi_decoder *vbi, int c, int g, gval_t *v)
+static void net_group(const vbi_network *n, int g, gval_t *v)
 {
         memset(v, 0, sizeof *v);
-        if (c == 2) {
-                const vbi_network *n = &vbi->network.ev.network;
-                if (g == G_NAME) put_str(v, 0, n->name, 64); else put_str(v, 0, n->call, 40);
-                return;
-        }
-        const vbi_program_info *pi = &vbi->prog_info[c];
+        if (g == G_NAME) put_str(v, 0, n->name, 64); else put_str(v, 0, n->call, 40);
+}
+
+static void pi_group(const vbi_program_info *pi, int g, gval_t *v)
+{
+        memset(v, 0, sizeof *v);
         switch (g) {
         case G_LEN: put_int(v, 0, pi->length_hour); put_int(v, 4, pi->length_min); put_int(v, 8, pi->elapsed_hour);
                     put_int(v, 12, pi->elapsed_min); put_int(v, 16, pi->elapsed_sec); break;
@@ -524,6 +529,13 @@ static void lib_group(const vbi_decoder *vbi, int c, int g, gval_t *v)
         case G_CAPS: put_int(v, 0, pi->caption_services); for (int i = 0; i < 8; i++) put_str(v, 4 + i * 12, pi->caption_language[i], 12); break;
         default: put_str(v, 0, pi->description[g - G_DESC0], 33); break;
         }
+}
+
+/* value of one group as the decoder shows it */
+static void lib_group(const vbi_decoder *vbi, int c, int g, gval_t *v)
+{
+        if (c == 2) net_group(&vbi->network.ev.network, g, v);
+        else pi_group(&vbi->prog_info[c], g, v);
 }
 
 static void default_group(int g, gval_t *v)
@@ -618,12 +630,22 @@ static int cand_has(const cands_t *cs, int c, int g, const gval_t *v)
         return 0;
 }
 
-typedef struct { int n; struct { int type, future; } e[8]; } evlog_t;
+typedef struct { int n; struct { int type, future; gval_t payload[NGROUPS]; } e[8]; } evlog_t;
 
+/* the payload is copied while the handler runs: vbi_program_info behind the pointer, vbi_network by value */
 static void svc_handler(vbi_event *e, void *ud)
 {
         evlog_t *l = ud;
-        if (l->n < 8) { l->e[l->n].type = e->type; l->e[l->n].future = e->type == VBI_EVENT_PROG_INFO ? e->ev.prog_info->future : 0; }
+        if (l->n < 8) {
+                l->e[l->n].type = e->type; l->e[l->n].future = 0;
+                if (e->type == VBI_EVENT_PROG_INFO) {
+                        l->e[l->n].future = e->ev.prog_info->future;
+                        for (int g = 0; g < G_NAME; g++) pi_group(e->ev.prog_info, g, &l->e[l->n].payload[g]);
+                } else if (e->type == VBI_EVENT_NETWORK) {
+                        net_group(&e->ev.network, G_NAME, &l->e[l->n].payload[G_NAME]);
+                        net_group(&e->ev.network, G_CALL, &l->e[l->n].payload[G_CALL]);
+                }
+        }
         l->n++;
 }
 
@@ -637,7 +659,7 @@ static void gval_text(const gval_t *v, char *out, size_t cap)
         out[o] = 0;
 }
 
-typedef struct { int announce_check, cycles; } svcopt_t;
+typedef struct { int announce_check, cycles, history_check; } svcopt_t;
 
 /* One decoder per pool case, made new at the first stream of the case.  Between
  * the streams of a case it is reset through the public channel switch
@@ -693,6 +715,32 @@ static void svc_end_of_case(void)
 
 static int run_svc_on(const stream_t *s, const char *fault, const svcopt_t *opt, runstat_t *rs, int fresh, int report);
 
+/* S-e: the current content of one observed (class,type): since which pair, how often in a row, announced with it? */
+typedef struct { int key, c, g, n, first_step, nconsec, announced, names_after; const char *rel; uint8_t d[34]; gval_t want; } track_t;
+
+/* A content sent three times in a row must have been carried by an event of its class after its first
+ * appearance (the decoder announces on the second occurrence; an event caused by another type in between
+ * carries it as well; the one flush a repeated title causes costs one more repeat).  Call letters are
+ * announced by the network name packet: two name packets must have followed. */
+static int history_ok(const track_t *q)
+{
+        if (q->n < 0 || q->nconsec < 3 || q->announced) return 1;
+        if (q->g == G_CALL && q->names_after < 2) return 1;
+        return 0;
+}
+
+static void gval_text(const gval_t *v, char *out, size_t cap);
+
+static void history_anomaly(const runctx_t *rc, const track_t *q)
+{
+        runctx_t r2 = *rc; r2.phase_note = q->rel;
+        char a[200]; gval_text(&q->want, a, sizeof a);
+        char kind[96];
+        snprintf(kind, sizeof kind, "%s repeated but never announced", q->g >= G_DESC0 && q->g < G_NAME ? "description row" : group_name[q->g]);
+        anomaly(&r2, kind, 0, "(%d,0x%02x) %s [%s] sent %d times in a row from pair #%d on, no %s after that carried it",
+                q->key >> 7, q->key & 127, group_name[q->g], a, q->nconsec, q->first_step, q->c == 2 ? "VBI_EVENT_NETWORK" : "VBI_EVENT_PROG_INFO");
+}
+
 static int run_svc(const stream_t *s, const char *fault, const svcopt_t *opt, runstat_t *rs)
 {
         runstat_t tmp = *rs;
@@ -720,6 +768,9 @@ static int run_svc_on(const stream_t *s, const char *fault, const svcopt_t *opt,
         int nevents[3] = { 0, 0, 0 }, last_rep_type[3] = { 0, 0, 0 };
         gval_t last[3][NGROUPS]; int have_last[3][NGROUPS]; memset(have_last, 0, sizeof have_last);
         int wild[3][NGROUPS]; memset(wild, 0, sizeof wild);
+        /* S-e: content history of every observed (class,type) */
+        track_t tr[16];
+        int ntr = 0;
         for (int i = 0; i < s->n && ok; i++) {
                 const pair_t *p = &s->p[i];
                 rc.step = i;
@@ -783,6 +834,27 @@ static int run_svc_on(const stream_t *s, const char *fault, const svcopt_t *opt,
                                                 "(%d,0x%02x) %d bytes, %s shows [%s], sent [%s]", c, t, ms.n, group_name[dg], a, b);
                                         ok = 0; break;
                                 }
+                                /* S-e bookkeeping */
+                                {
+                                        int k; for (k = 0; k < ntr; k++) if (tr[k].key == ms.key) break;
+                                        if (k == ntr && ntr < 16) { memset(&tr[k], 0, sizeof tr[k]); tr[k].key = ms.key; tr[k].c = c; tr[k].g = dg; tr[k].n = -1; tr[k].rel = "first content"; ntr++; }
+                                        if (k < ntr) {
+                                                track_t *q = &tr[k];
+                                                if (q->n == ms.n && !memcmp(q->d, ms.d, ms.n)) q->nconsec++;
+                                                else {
+                                                        if (opt && opt->history_check && !fault && !history_ok(q)) {
+                                                                history_anomaly(&rc, q); ok = 0; break;
+                                                        }
+                                                        if (q->n >= 0)
+                                                                q->rel = ms.n < q->n && !memcmp(q->d, ms.d, ms.n) ? "new content is a proper prefix of the previous content"
+                                                                       : ms.n > q->n && !memcmp(q->d, ms.d, q->n) ? "new content extends the previous content"
+                                                                       : ms.n == q->n ? "new content of the same length" : "new content of another length";
+                                                        q->n = ms.n; memcpy(q->d, ms.d, ms.n); q->want = want;
+                                                        q->first_step = i; q->nconsec = 1; q->announced = 0; q->names_after = 0;
+                                                }
+                                                if (dg == G_NAME) for (int j = 0; j < ntr; j++) if (tr[j].g == G_CALL && j != k) tr[j].names_after++;
+                                        }
+                                }
                                 ndeliv[c][dg]++; last[c][dg] = want; have_last[c][dg] = 1;
                                 if (repeat && (c != 2 || dg == G_NAME)) { nrepeat[c]++; last_rep_type[c] = t; }
                                 rs->delivered++;
@@ -808,12 +880,19 @@ static int run_svc_on(const stream_t *s, const char *fault, const svcopt_t *opt,
                         int legit = ms.delivered && dc == ec && seen && (ec != 2 || dg == G_NAME);
                         if (g_ev.e[k].type != VBI_EVENT_PROG_INFO && g_ev.e[k].type != VBI_EVENT_NETWORK) continue;
                         nevents[ec]++;
+                        for (int j = 0; j < ntr; j++)
+                                if (tr[j].c == ec && i > tr[j].first_step && !memcmp(&g_ev.e[k].payload[tr[j].g], &tr[j].want, sizeof(gval_t))) tr[j].announced = 1;
                         if (!legit) {
                                 anomaly(&rc, ms.delivered ? "information is announced before the packet has been repeated" : "information is announced although no packet was completed", wflags,
                                         "%s for class %d", g_ev.e[k].type == VBI_EVENT_NETWORK ? "VBI_EVENT_NETWORK" : "VBI_EVENT_PROG_INFO", ec);
                                 ok = 0;
                         }
                 }
+        }
+        /* S-e */
+        if (ok && opt && opt->history_check && !fault) {
+                rc.step = s->n - 1;
+                for (int j = 0; j < ntr && ok; j++) if (!history_ok(&tr[j])) { history_anomaly(&rc, &tr[j]); ok = 0; }
         }
         /* S-d */
         if (ok && opt && opt->announce_check && !fault) {
@@ -1279,10 +1358,89 @@ static void announce_case(uint64_t idx, void *arg)
                 s.n = 0;
                 for (int cy = 0; cy < 3; cy++)
                         for (int i = 0; i < n; i++) { emit_seg(&s, &pk[i], i, 0); if (variant) emit_caption(&s, 0x14, 0x2C); }
-                svcopt_t opt = { 1, 3 };
+                svcopt_t opt = { 1, 3, 1 };
                 run_stream(&s, IMPL_SVC, NULL, &opt, "ordered set of programme/network packets, three cycles");
         }
         if (n == 4 && sel[0] == 0 && sel[1] == 6 && sel[2] == 1 && sel[3] == 7) mc_sample("announce: title, network name, length, call letters x 3 cycles, whole packets, without and with caption bursts between");
+        flush_counts();
+}
+
+/* ---- phase announce-history (service decoder): one (class,type) changes its content to a proper prefix, to an
+ * extension, to other bytes of the same length; every content is repeated; constant companions before / after */
+
+static const int hk_keys[][2] = { { 0, 3 }, { 1, 3 }, { 0, 0x10 }, { 0, 0x17 }, { 1, 0x12 }, { 2, 1 }, { 2, 2 } };
+#define N_HK 7
+#define HK_MINLEN 2
+#define HK_MAXLEN 32
+
+/* companions of key k: class, type (class -1 = none) */
+static void hk_companions(int k, int comp[3][2])
+{
+        int c = hk_keys[k][0], t = hk_keys[k][1];
+        for (int i = 0; i < 3; i++) comp[i][0] = -1;
+        if (c == 2 && t == 2) { comp[0][0] = 2; comp[0][1] = 1; return; }         /* call letters are announced by the name packet */
+        if (c == 2) { comp[1][0] = 2; comp[1][1] = 2; comp[2][0] = 0; comp[2][1] = 3; comp[0][0] = -2; return; }
+        comp[0][0] = -2;                                                          /* -2: run without companion */
+        if (t == 3) { comp[1][0] = c; comp[1][1] = 0x13; comp[2][0] = 2; comp[2][1] = 1; }
+        else { comp[1][0] = c; comp[1][1] = 3; comp[2][0] = c; comp[2][1] = 0x15; }
+}
+
+static void hk_run(const pkt_t *contents, const int *hist, int nh, const pkt_t *comp, int order, int caption, const char *what)
+{
+        static stream_t s;
+        svcopt_t opt = { 1, 0, 1 };
+        s.n = 0;
+        for (int i = 0; i < nh; i++) {
+                if (comp && order == 0) emit_seg(&s, comp, 1, 0);
+                emit_seg(&s, &contents[hist[i]], 0, 0);
+                if (caption) emit_caption(&s, 0x14, 0x2C);
+                if (comp && order == 1) emit_seg(&s, comp, 1, 0);
+        }
+        run_stream(&s, IMPL_SVC, NULL, &opt, what);
+}
+
+static void announce_history_case(uint64_t idx, void *arg)
+{
+        int k = idx / (HK_MAXLEN - HK_MINLEN + 1), La = HK_MINLEN + idx % (HK_MAXLEN - HK_MINLEN + 1);
+        int c = hk_keys[k][0], t = hk_keys[k][1];
+        int minlen = t == 3 && c < 2 ? 2 : 1;                 /* a programme name has at least two characters */
+        int comps[3][2]; hk_companions(k, comps);
+        pkt_t ct[2]; memset(ct, 0, sizeof ct);
+        uint64_t nstreams = 0;
+        for (int ci = 0; ci < 3; ci++) {
+                if (comps[ci][0] == -1) continue;
+                pkt_t comp; memset(&comp, 0, sizeof comp);
+                int have_comp = comps[ci][0] >= 0;
+                if (have_comp) { comp.cls = comps[ci][0]; comp.type = comps[ci][1]; int seg[1] = { 6 }; set_shape(&comp, 1, seg); fill_content(&comp, 1, 3 + ci); }
+                for (int order = 0; order < (have_comp ? 2 : 1); order++) {
+                        int caption = (La + order + ci) & 1;
+                        /* A of La bytes; B = proper prefix of A */
+                        for (int Lb = minlen; Lb < La; Lb++) {
+                                for (int i = 0; i < 2; i++) { ct[i].cls = c; ct[i].type = t; }
+                                int sa[1] = { La }, sb[1] = { Lb };
+                                set_shape(&ct[0], 1, sa); fill_content(&ct[0], 0, k + 1);
+                                set_shape(&ct[1], 1, sb); memcpy(ct[1].d, ct[0].d, Lb);
+                                static const int h1[] = { 0, 0, 1, 1, 1, 0, 0, 0 };        /* announced, then prefix x3, then back (extension) x3 */
+                                static const int h2[] = { 1, 1, 0, 0, 0 };                 /* short announced, then its extension x3 */
+                                hk_run(ct, h1, 8, have_comp ? &comp : NULL, order, caption, "content history: long, long, prefix x3, long x3");
+                                hk_run(ct, h2, 5, have_comp ? &comp : NULL, order, caption, "content history: short, short, extension x3");
+                                nstreams += 2;
+                        }
+                        /* same length, one byte different at the first / middle / last position */
+                        for (int pv = 0; pv < 3; pv++) {
+                                int pos = pv == 0 ? 0 : pv == 1 ? La / 2 : La - 1;
+                                if (pv == 1 && (pos == 0 || pos == La - 1)) continue;
+                                for (int i = 0; i < 2; i++) { ct[i].cls = c; ct[i].type = t; int sa[1] = { La }; set_shape(&ct[i], 1, sa); fill_content(&ct[i], 0, k + 1); }
+                                ct[1].d[pos] = ct[1].d[pos] == 0x7A ? 0x41 : 0x7A;
+                                static const int h3[] = { 0, 0, 1, 1, 1 };
+                                hk_run(ct, h3, 5, have_comp ? &comp : NULL, order, caption, "content history: A, A, B x3 (same length)");
+                                nstreams++;
+                        }
+                }
+        }
+        if ((k == 0 && La == 16) || (k == 5 && La == 9))
+                mc_sample("announce-history: (%d,0x%02x) content of %d bytes x2, then each proper prefix (%d..%d bytes) x3, then the long one x3; short x2 then extension x3; one byte changed x3; alone / with constant companion before / after, with and without caption bursts: %llu streams",
+                          c, t, La, minlen, La - 1, (unsigned long long) nstreams);
         flush_counts();
 }
 
@@ -1303,7 +1461,7 @@ int main(int argc, char **argv)
         sl_nkeys = thorough ? 12 : 4;
         il_plan();
         int nfs1 = thorough ? N_FS1 : 2, nfk = thorough ? 3 : 1;
-        mc_meta("bound", "single-matrix: 7x128 (class,type) x 8 lengths x <=8 cuts; single-lengths: %d keys x lengths 0..40 x all <=3-segment cuts; interleave: %llu configurations (2 packets of 1..4 bytes all cuts +-caption; 3 packets %s; 14 limit shapes x neighbour), all merges, 2 cycles; interrupt-matrix: %d documented packets x 896 interrupters x 3 cut pairs all merges, 16x96 caption control codes; faults: %d shape pairs x all merges x every pair x {drop, parity byte 1/2, checksum +-1} x balance points; announce: ordered selections of <=4 of 10 packets x 3 cycles",
+        mc_meta("bound", "single-matrix: 7x128 (class,type) x 8 lengths x <=8 cuts; single-lengths: %d keys x lengths 0..40 x all <=3-segment cuts; interleave: %llu configurations (2 packets of 1..4 bytes all cuts +-caption; 3 packets %s; 14 limit shapes x neighbour), all merges, 2 cycles; interrupt-matrix: %d documented packets x 896 interrupters x 3 cut pairs all merges, 16x96 caption control codes; faults: %d shape pairs x all merges x every pair x {drop, parity byte 1/2, checksum +-1} x balance points; announce: ordered selections of <=4 of 10 packets x 3 cycles; announce-history: 7 (class,type) x content lengths 2..32 x {every proper prefix x3 then back x3, extension x3, one byte changed x3} x {alone, constant companion before/after}",
                 sl_nkeys, (unsigned long long) il_ncfg, thorough ? "of 1..4 bytes all cuts, <=7 segments in total" : "of 1..2 bytes all cuts", thorough ? N_QKEYS : 5, N_FS0 * nfs1 * nfk);
 
         mc_pool("single-matrix", 896, single_matrix_case, NULL, 60);
@@ -1312,5 +1470,6 @@ int main(int argc, char **argv)
         mc_pool("interrupt-matrix", 896 + 16, interrupt_case, NULL, 120);
         mc_pool("faults", (uint64_t) N_FS0 * nfs1 * nfk * F_NBAL, faults_case, NULL, 300);
         mc_pool("announce", (uint64_t)(N_AN + 1) * (N_AN + 1) * (N_AN + 1) * (N_AN + 1), announce_case, NULL, 60);
+        mc_pool("announce-history", (uint64_t) N_HK * (HK_MAXLEN - HK_MINLEN + 1), announce_history_case, NULL, 120);
         return mc_finish();
 }
